@@ -422,12 +422,46 @@ func c04Cases(e *c04Env, thorough bool) []c04Case {
 			}
 		}
 	}
+	if thorough {
+		// full cross: every reply × request type × every Accept list × four Accept-Encoding
+		// classes × handler sends its headers itself or not; GET for every third reply
+		for ni, name := range e.names {
+			for _, rct := range reqCTs {
+				for _, a := range accepts {
+					for _, enc := range []string{"", "gzip", "gzip;q=0", "*"} {
+						for _, sh := range []bool{false, true} {
+							out = append(out, c04Case{Method: "echo", Reply: name, ReqCT: rct, Accept: a, AcceptEnc: enc, Verb: "POST", SendHdr: sh})
+						}
+						if ni%3 == 0 {
+							out = append(out, c04Case{Method: "echo", Reply: name, ReqCT: rct, Accept: a, AcceptEnc: enc, Verb: "GET"})
+						}
+					}
+				}
+			}
+		}
+		for _, a := range accepts {
+			for _, ct := range []string{"image/jpeg", "text/plain; charset=utf-8", "", "application/json"} {
+				for _, n := range []int{0, 7, 70000} {
+					for _, enc := range []string{"", "gzip"} {
+						for _, sh := range []bool{false, true} {
+							out = append(out, c04Case{Method: "raw", Reply: fmt.Sprintf("%s|%d", ct, n), Accept: a, AcceptEnc: enc, SendHdr: sh})
+						}
+					}
+				}
+			}
+			for _, rct := range reqCTs {
+				for _, enc := range encs {
+					out = append(out, c04Case{Method: "sel", Reply: "full", ReqCT: rct, Accept: a, AcceptEnc: enc})
+				}
+			}
+		}
+	}
 	return out
 }
 
 func runC04(c *Ctx) {
 	r := c.Run
-	r.Rule("reply{empty, each field kind with a boundary value, maps/struct/any/repeated messages, all kinds at once, 64KiB} × request Content-Type{none,json,protobuf,octet-stream,unregistered} × Accept{every list of <= 2 ranges from {json,protobuf,octet-stream,application/*,*/*,text/plain,junk,google.api.HttpBody} × q{none,0,0.5,1}, plus malformed} × Accept-Encoding{none,gzip,identity,*,gzip;q=0,junk,list,a content type}; response_body selector; handlers that call grpc.SendHeader before replying; google.api.HttpBody replies (4 content types × 4 sizes incl. JSON-looking bytes); distinct = (method, reply, request type, Accept class, Accept-Encoding)")
+	r.Rule("reply{empty, each field kind with a boundary value, maps/struct/any/repeated messages, all kinds at once, 64KiB} × request Content-Type{none,json,protobuf,octet-stream,unregistered} × Accept{every list of <= 2 ranges from {json,protobuf,octet-stream,application/*,*/*,text/plain,junk,google.api.HttpBody} × q{none,0,0.5,1}, plus malformed} × Accept-Encoding{none,gzip,identity,*,gzip;q=0,junk,list,a content type}; response_body selector; handlers that call grpc.SendHeader before replying; google.api.HttpBody replies (4 content types × 4 sizes incl. JSON-looking bytes); distinct = (method, reply, request type, Accept class, Accept-Encoding); thorough adds the full cross reply × request type × every Accept list × Accept-Encoding{none,gzip,gzip;q=0,*} × SendHeader{no,yes}, and every Accept list on HttpBody and response_body replies")
 	r.Assume("which admitted type is chosen and q=0 exclusions of a more specific range are not demanded", "a request with an unregistered content type and a body may be refused")
 	e0 := newC04Env()
 	cases := c04Cases(e0, c.Thorough())
